@@ -69,6 +69,9 @@ func execCase(rc robustCase) (outcome, detail string) {
 	defer func() {
 		if r := recover(); r != nil {
 			outcome, detail = "panic", fmt.Sprint(r)
+			if panicOrigin(string(debug.Stack())) == "harness" {
+				outcome = "harnessbug"
+			}
 		}
 	}()
 	switch rc.Entry {
@@ -152,6 +155,30 @@ func execCase(rc robustCase) (outcome, detail string) {
 		return "ok", out.T.String()
 	}
 	return "err", "unknown entry"
+}
+
+// panicOrigin tells whether the innermost non-runtime frame of a panic is library or harness code.
+func panicOrigin(stack string) string {
+	seenPanic := false
+	for _, line := range strings.Split(stack, "\n") {
+		if strings.HasPrefix(line, "\t") || line == "" {
+			continue
+		}
+		if strings.HasPrefix(line, "panic(") {
+			seenPanic = true
+			continue
+		}
+		if !seenPanic {
+			continue
+		}
+		switch {
+		case strings.HasPrefix(line, "github.com/philpearl/avro"):
+			return "lib"
+		case strings.HasPrefix(line, "main."):
+			return "harness"
+		}
+	}
+	return "lib"
 }
 
 // splitHeaderOnly returns the embedded schema text of a container, if the
@@ -339,6 +366,14 @@ func driveC06(c *driverCtx) error {
 			sj := schemaJSONOf(s)
 			b := nodeBytes(m, "bytes")
 			key := fmt.Sprintf("C06|mut|%s|%s|%s", nodeStr(node(m["s"].(map[string]any)), "k"), m["role"], m["repl"])
+			if hasZeroSizeItems(s) {
+				// arrays of zero-byte items: the declared count is not bounded by the input (known finding);
+				// kept apart under their own key and thinned out (each can run into the watchdog)
+				if m["role"] != "count" || i%7 != 0 {
+					continue
+				}
+				key = fmt.Sprintf("C06|zero-byte-items|mut|%s", m["repl"])
+			}
 			add(robustCase{Entry: "read", Schema: sj, Var: i, Bytes: b, Key: key + "|read"})
 			if i%3 == 0 {
 				add(robustCase{Entry: "skip", Schema: sj, Var: 0, Bytes: b, Key: key + "|skip"})
@@ -438,12 +473,20 @@ func driveC06(c *driverCtx) error {
 		if i%4 == 3 {
 			entry = "skip"
 		}
-		add(robustCase{Entry: entry, Schema: shapes[i%len(shapes)], Var: i, Bytes: b, Key: fmt.Sprintf("C06|random|shape%d|%s|len%d", i%len(shapes), entry, n)})
+		si := i % 3 // shapes 3 and 4 hold arrays of zero-byte items: dedicated witnesses below
+		add(robustCase{Entry: entry, Schema: shapes[si], Var: i, Bytes: b, Key: fmt.Sprintf("C06|random|shape%d|%s|len%d", si, entry, n)})
 	}
-	// huge declared counts of zero-byte items (arrays of null / of empty records)
-	for _, cnt := range [][]byte{{254, 255, 255, 255, 15}, {128, 128, 128, 128, 128, 64}} {
-		add(robustCase{Entry: "read", Schema: shapes[3], Bytes: append(append([]byte{}, cnt...), 0, 1, 0, 0, 0, 0, 0, 0, 0, 0, 0, 0, 0, 0), Key: "C06|zero-byte-items|array-of-null"})
-		add(robustCase{Entry: "skip", Schema: shapes[3], Bytes: append(append([]byte{}, cnt...), 0, 1, 0, 0, 0, 0, 0, 0, 0, 0, 0, 0, 0, 0), Key: "C06|zero-byte-items|array-of-null-skip"})
+	// huge declared counts of zero-byte items (arrays of null / of empty records): known finding, dedicated witnesses
+	zcounts := [][]byte{{254, 255, 255, 255, 15}}
+	if c.thorough() {
+		zcounts = append(zcounts, []byte{128, 128, 128, 128, 128, 64})
+	}
+	for _, cnt := range zcounts {
+		tail := []byte{0, 1, 0, 0, 0, 0, 0, 0, 0, 0, 0, 0, 0, 0}
+		add(robustCase{Entry: "read", Schema: shapes[3], Bytes: append(append([]byte{}, cnt...), tail...), Key: "C06|zero-byte-items|array-of-null"})
+		if c.thorough() {
+			add(robustCase{Entry: "skip", Schema: shapes[3], Bytes: append(append([]byte{}, cnt...), tail...), Key: "C06|zero-byte-items|array-of-null-skip"})
+		}
 		add(robustCase{Entry: "read", Schema: shapes[4], Bytes: append(append([]byte{}, cnt...), 0), Key: "C06|zero-byte-items|array-of-empty-record"})
 	}
 
@@ -505,6 +548,9 @@ func driveC06(c *driverCtx) error {
 	}
 	for i, rc := range cases {
 		r := results[i]
+		if r.Outcome == "harnessbug" {
+			return fmt.Errorf("panic inside harness code on case %s: %s", rc.Key, r.Detail)
+		}
 		c.rec.NewCase()
 		c.rec.Emit(rc.Key, map[string]any{"op": "feed", "entry": rc.Entry, "len": len(rc.Bytes) + len(rc.Schema), "outcome": r.Outcome,
 			"allocKiB": int(r.Alloc >> 10), "ms": r.Ms, "detail": r.Detail, "input": byteList(clip(rc.Bytes, 64)), "schema": clipS(rc.Schema, 200)})
